@@ -849,16 +849,34 @@ class Session:
 
     def __enter__(self) -> Sched:
         global CUR
+        import gc
         install_nodes()
         install_worker_info()
+        # Cyclic garbage collection is switched off inside a session: a collection at an arbitrary allocation
+        # would run `__del__` (= shutdown of an abandoned iterator, with switch points) at a schedule-dependent
+        # moment and make runs irreproducible.  Harness code calls gc.collect() at explicit points instead.
+        self._gc_was = gc.isenabled()
+        gc.collect()
+        gc.disable()
         self.s = Sched(self.seed, **self.kw)
         CUR = self.s
         return self.s
 
     def __exit__(self, et, ev, tb):
+        if et is not None and self.s is not None and self.s.logging:
+            import sys as _s
+            print("LAST EVENTS", self.s.events[-40:], file=_s.stderr)
+            print("ALIVE", [(v.name, v.state) for v in self.s.vts if v.state != "done"], file=_s.stderr)
         global CUR
+        import gc
         try:
+            try:
+                gc.collect()  # finalise abandoned iterators while their virtual threads can still be scheduled
+            except BaseException:
+                pass
             self.s.close()
         finally:
             CUR = None
+            if self._gc_was:
+                gc.enable()
         return False
